@@ -237,8 +237,17 @@ class Renderer:
     ifc_src = []
     for iname, members in sorted(self.d.get("ifcs", {}).items()):
       L = [f"class {iname}_{tag}( Interface ):", "  def construct( s ):"]
+      done = set()
       for mn, md, mt in members:
-        L.append(f"    s.{mn} = {'InPort' if md == 'in' else 'OutPort'}( {self.tname(mt)} )")
+        ctor = f"{'InPort' if md == 'in' else 'OutPort'}( {self.tname(mt)} )"
+        if "[" in mn:                                  # a member that is a list of ports
+          base = mn.split("[", 1)[0]
+          if base in done: continue
+          done.add(base)
+          n = sum(1 for m2, _, _ in members if m2.split("[", 1)[0] == base and "[" in m2)
+          L.append(f"    s.{base} = [ {ctor} for _ in range({n}) ]")
+        else:
+          L.append(f"    s.{mn} = {ctor}")
       ifc_src.append("\n".join(L) + "\n")
     return ifc_src
 
